@@ -4,6 +4,18 @@ import json, os
 V = os.path.dirname(os.path.dirname(os.path.abspath(__file__)))
 
 CHECKS = {
+ "C10": ("exploration", "5/C10",
+         "Seeded executions over modes (all special-bit combinations x sampled rwx), nanosecond mtimes, user xattrs, uid/gid pairs (root: fchown really works), flag combinations, umasks, fresh/overwritten destinations, both drivers and filesystems; multi-block files under lifo/pct/role schedules. Oracle: lstat+xattr comparison of every destination file with its source as the flags demand, plus the metadata-after-last-byte trace monitor.",
+         "Directory/symlink metadata and atime are outside the statement. With --no-perms and --ownership the kernel's clearing of set-ID bits of a previous mode is accepted.",
+         "runtime monitoring: metadata snapshot oracle + trace monitor under schedule perturbation"),
+ "C11": ("exploration", "5/C11",
+         "Seeded sparse layouts (0-100 segments, holes >= 1 MiB, aligned/unaligned, synced/unsynced) x block sizes x workers x drivers x fresh/fully-allocated destination on ext4 (FIEMAP) and tmpfs (SEEK_DATA only); each layout also with holes x8. Oracle: destination st_blocks (after fsync) within a per-segment allowance of the source's data, no destination data wholly inside a source hole, allocation independent of hole size, bytes identical.",
+         "Only ext4 and tmpfs exist here; holes < 1 MiB are not demanded.",
+         "runtime monitoring: allocation / SEEK_DATA-map oracle over seeded executions"),
+ "C12": ("exploration", "5/C12",
+         "A library client (probe_xcp) runs under the supervisor with three updaters; every update is tied to a marker system call so it has a position in the supervisor's total order of system calls. Oracle: sum(Size)==total bytes, every prefix has Copied<=Size, at every marker reported<=bytes returned by completed data calls on destination files, receiver disconnected after copy(), incomplete destination implies Error update or Err (for NoopUpdater: Err).",
+         "Interleavings and I/O policies are sampled. The recording updater's order is the order of its own mutex.",
+         "runtime monitoring: API event-stream checker merged with the system-call trace"),
  "C08": ("exploration", "5/C08",
          "Seeded executions with -n into a directory pre-populated with entries of every kind at the mapped paths of a random subset of 3-12 sources, under supervisor schedules that race the walker's existence check with active workers; oracle: every pre-existing entry keeps kind, inode, bytes, mode, mtime, ctime, link text, device number; a colliding file/link/node source implies non-zero exit; trace monitor: no mutating call on a pre-existing inode or path; nothing is created through a pre-existing link.",
          "Directory-onto-directory collisions are not demanded either way; directory mtimes may change when new children are created.",
